@@ -7,7 +7,20 @@ use proptest::collection::vec;
 use proptest::prelude::*;
 use proptest::sample::select;
 
-pub const POS_LIMIT: u64 = i32::MAX as u64;
+/// positions and chromosome sizes are u32 in the format: the whole range is used
+pub const POS_LIMIT: u64 = u32::MAX as u64;
+
+/// where a chromosome's items start: mostly at the beginning, sometimes just below 2^31, beyond it,
+/// or so close to 2^32 that the layout ends at the very top of the coordinate range
+fn base_offset() -> BoxedStrategy<u64> {
+    prop_oneof![
+        16 => Just(0u64),
+        1 => Just((1u64 << 31) - 40),
+        1 => Just(3_000_000_000u64),
+        1 => (0u64..3_000_000).prop_map(|k| u32::MAX as u64 - 3_000_000 + k),
+    ]
+    .boxed()
+}
 
 pub fn chrom_name() -> BoxedStrategy<String> {
     prop_oneof![
@@ -89,10 +102,10 @@ fn tail() -> BoxedStrategy<u32> {
 
 /// one chromosome's bigWig values: constructed from (gap, len, value) triples
 pub fn bw_vals(max_items: usize) -> BoxedStrategy<(Vec<BwVal>, u32)> {
-    (vec((gap(), len(true), finite_f32()), 1..=max_items), tail())
-        .prop_map(|(triples, tail)| {
+    (vec((gap(), len(true), finite_f32()), 1..=max_items), tail(), base_offset())
+        .prop_map(|(triples, tail, offset)| {
             let mut vals = Vec::with_capacity(triples.len());
-            let mut pos: u64 = 0;
+            let mut pos: u64 = offset;
             for (g, l, v) in triples {
                 let mut s = pos + g as u64;
                 let mut e = s + l as u64;
@@ -249,10 +262,10 @@ fn bb_len() -> BoxedStrategy<u32> {
 /// one chromosome's entries: start-sorted by construction, ends independent
 pub fn bb_entries(max_items: usize, with_rest: bool) -> BoxedStrategy<(Vec<BbEntry>, u32)> {
     let r = if with_rest { rest() } else { Just(String::new()).boxed() };
-    (vec((bb_delta(), bb_len(), r), 1..=max_items), tail(), 0u8..10)
-        .prop_map(|(triples, tail, over)| {
+    (vec((bb_delta(), bb_len(), r), 1..=max_items), tail(), 0u8..10, base_offset())
+        .prop_map(|(triples, tail, over, offset)| {
             let mut entries = Vec::with_capacity(triples.len());
-            let mut start: u64 = 0;
+            let mut start: u64 = offset.min(POS_LIMIT - 600_000);
             let mut max_end: u64 = 0;
             for (d, l, rest) in triples {
                 let mut s = start + d as u64;
@@ -365,6 +378,8 @@ pub fn zoom_spec(small: bool) -> BoxedStrategy<ZoomSpec> {
     prop_oneof![
         3 => (select(vec![1u32, 2, 7, 10, 160]), 0u32..=10).prop_map(|(initial, max)| ZoomSpec::Auto { initial, max }),
         3 => proptest::sample::subsequence(manual_sizes.clone(), 0..=6).prop_map(ZoomSpec::Manual),
+        // more levels than the ten header slots UCSC tools use
+        1 => proptest::sample::subsequence(manual_sizes.clone(), 11..=manual_sizes.len().min(14)).prop_map(ZoomSpec::Manual),
         // the list is a public option and nothing says it must be ascending, distinct or non-zero
         1 => (proptest::sample::subsequence(manual_sizes.clone(), 1..=5), any::<u64>(), prop::bool::weighted(0.3), prop::bool::weighted(0.2))
             .prop_map(|(mut v, seed, dup, zero)| {
